@@ -46,6 +46,7 @@ From V Require Import Proto.FdOwnerDefs.
 From V Require Import Calc.TaskBoxDefs.
 From V Require Import Proto.EventV2Defs.
 From V Require Import Arith.PolicyDefs.
+From V Require Import Calc.TraitsMultiDefs.
 Extraction Blacklist List String Int.
 Cd "../ocaml".
 Extraction "model.ml"
@@ -276,5 +277,25 @@ Extraction "model.ml"
   BasicSender.calls
   BasicSender.nstop
   BasicSender.badstop
+  TraitsMulti.tr_let_value
+  TraitsMulti.rt_let_value
+  TraitsMulti.tr_let_error
+  TraitsMulti.rt_let_error
+  TraitsMulti.tr_when_all
+  TraitsMulti.rt_when_all
+  TraitsMulti.tr_variant
+  TraitsMulti.rt_variant
+  TraitsMulti.tr_sequence_n
+  TraitsMulti.rt_sequence_n
+  TraitsMulti.let_value_obs
+  TraitsMulti.let_error_obs
+  TraitsMulti.when_all_obs
+  TraitsMulti.variant_obs
+  TraitsMulti.sequence_obs
+  TraitsMulti.sound_obs
+  TraitsMulti.sound_beh
+  TraitsMulti.tr_stop_when
+  TraitsMulti.rt_stop_when
+  TraitsMulti.stop_when_obs
   (*END*).
 Cd "../coq".
